@@ -414,7 +414,7 @@ TEXTUAL = [
     ("C08", "parafac-no-final-normalise", "tensorly/decomposition/_cp.py", "    if normalize_factors:\n        # also reached through the convergence / callback break\n        weights, factors = cp_normalize((weights, factors))\n", ""),
     ("C08", "nn-tucker-no-final-normalise", "tensorly/decomposition/_tucker.py", "    if normalize_factors:\n        # also reached through the convergence break\n        nn_core, nn_factors = tucker_normalize((nn_core, nn_factors))\n    tensor = TuckerTensor((nn_core, nn_factors))\n    if return_errors:\n        return tensor, rec_errors\n    else:\n        return tensor\n\n\ndef non_negative_tucker_hals", "    tensor = TuckerTensor((nn_core, nn_factors))\n    if return_errors:\n        return tensor, rec_errors\n    else:\n        return tensor\n\n\ndef non_negative_tucker_hals"),
     ("C08", "hooi-core-before-factors", "tensorly/decomposition/_tucker.py", "            factors[index] = eigenvecs\n\n        core = multi_mode_dot(tensor, factors, modes=modes, transpose=True)", "            factors[index] = eigenvecs\n            core = multi_mode_dot(tensor, factors, modes=modes, transpose=True)\n        factors[0] = factors[0] * 1"),
-    ("C08", "parafac2-normalise-after-break", "tensorly/decomposition/_parafac2.py", "        if normalize_factors:\n            weights, factors = cp_normalize((weights, factors))\n\n        if tol and not line_iter:", "        if tol and not line_iter:"),
+    ("C08", "parafac2-no-final-normalise", "tensorly/decomposition/_parafac2.py", "    if normalize_factors:\n        # also when no sweep was run (n_iter_max=0): the initialisation is returned normalised\n        weights, factors = cp_normalize((weights, factors))\n", ""),  # reverts /repo 4a0ff4c; the older mutant that moved the in-loop normalisation behind the break became equivalent with that repair
     ("C11", "cross-l1-l2", "tensorly/solvers/admm.py", "            l1_reg=l1_reg,\n            l2_reg=l2_reg,", "            l1_reg=l2_reg,\n            l2_reg=l1_reg,"),
     ("C11", "drop-simplex-forward", "tensorly/decomposition/_constrained_cp.py", "                simplex=simplex,\n                normalized_sparsity=normalized_sparsity,\n                soft_sparsity=soft_sparsity,\n                smoothness=smoothness,\n                monotonicity=monotonicity,\n                hard_sparsity=hard_sparsity,\n                tol=tol_inner,", "                normalized_sparsity=normalized_sparsity,\n                soft_sparsity=soft_sparsity,\n                smoothness=smoothness,\n                monotonicity=monotonicity,\n                hard_sparsity=hard_sparsity,\n                tol=tol_inner,"),
     ("C11", "swap-table-rows", "tensorly/tenalg/proximal.py", "        \"unimodality\",\n        \"normalize\",", "        \"normalize\",\n        \"unimodality\","),
